@@ -74,7 +74,7 @@ mod verif_auth_sign {
         let len: usize = kani::any();
         kani::assume(12 <= len && len <= MSG);
         let offset: usize = kani::any();
-        kani::assume(offset + 12 <= len);
+        kani::assume(offset <= len - 12);
         let before = data;
         auth.sign(&mut data[..len], offset).unwrap();
         unsafe {
